@@ -24,7 +24,7 @@ def _f(x):
 
 def generate(ctx):
     rng = ctx.rng
-    n_rot = ctx.n(300, 20000)
+    n_rot = ctx.n(5000, 20000)
     for i in range(n_rot):
         k = rng.random()
         if k < 0.15:
@@ -47,7 +47,7 @@ def generate(ctx):
         theta = rng.choice([rng.uniform(-20, 20), rng.uniform(-20, 20), math.pi / 2 * rng.randint(-8, 8), 0.0])
         yield {"kind": "rot", "axis": axis, "theta": theta, "theta2": rng.uniform(-20, 20),
                "lam": 10 ** rng.uniform(-3, 3)}
-    n_fr = ctx.n(400, 30000)
+    n_fr = ctx.n(7000, 30000)
     dirs = [(1, 0, 0), (0, 1, 0), (0, 0, 1), (1, 1, 0), (1, 0, 1), (0, 1, 1), (1, 1, 1), (1, -1, 0), (-1, 1, 1)]
     for i in range(n_fr):
         k = rng.random()
